@@ -84,9 +84,10 @@ def _bundle_dense(rng, shape):
     return {"shape": list(shape), "data": data, "kw": [v for _, v in nz], "kf": kf, "tcs": list(shape), "tcore": data, "tf": eye}
 
 
-SHAPES_Q = [(3, 2), (4, 3, 2), (2, 5, 2), (1, 3, 2)]
-SHAPES_T = SHAPES_Q + [(5,), (2, 3), (4, 4), (3, 4, 2), (1, 4, 3), (3, 1, 2), (2, 2, 3, 2), (5, 2, 2), (3, 3, 3)]
-REPRS = ("dense", "sparse", "ktensor", "ttensor")
+SHAPES_Q = [(3, 2), (4, 3, 2), (2, 5, 2), (1, 3, 2), (2, 3, 2, 2)]
+SHAPES_T = SHAPES_Q + [(5,), (2, 3), (4, 4), (3, 4, 2), (1, 4, 3), (3, 1, 2), (2, 2, 3, 2), (5, 2, 2), (3, 3, 3), (2, 4, 3, 2)]
+REPRS = ("dense", "sparse", "ktensor", "ttensor", "ttensor_sp")
+SEQ_REPRS = ("ktensor", "ttensor", "ttensor_sp", "dense")
 
 
 def gen_cases(rng, tier):
@@ -114,7 +115,28 @@ def gen_cases(rng, tier):
                     cases.append(Case("agree", dict(b, n=n, r=r, flip=flip), shp[n] >= 2))
                     if not all(s == 1 for k, s in enumerate(shp) if k != n):
                         cases.append(Case("sp_agree", dict(b, n=n, r=r, flip=flip), shp[n] >= 2))
+            # sequences: nvecs for every mode on ONE object (as cp_als / tucker_als(init="nvecs") do), each result checked against
+            # the Gram matrix of the ORIGINAL denotation; Kruskal operands get non-unit weights
+            if len(shp) >= 2:
+                for rp in SEQ_REPRS:
+                    for rep in range(2 if (big or rp == "ktensor") else 1):
+                        bs = kind(rng, shp)
+                        for _ in range(20):
+                            if rp != "ktensor" or any(abs(w) != 1 for w in bs["kw"]):
+                                break
+                            bs = kind(rng, shp)
+                        bs["order"] = rng.choice(["sorted", "reversed", "random"])
+                        bs["sseed"] = rng.randrange(10 ** 6)
+                        modes = list(range(len(shp)))
+                        if rep == 1:
+                            rng.shuffle(modes)
+                        rs = [rng.randint(1, shp[n]) for n in modes]
+                        cases.append(Case("seq", dict(bs, repr=rp, modes=modes, rs=rs, flip=rng.random() < 0.8),
+                                          any(shp[n] >= 2 for n in modes)))
     return cases
+
+
+AGREE_REPRS = ("dense", "ktensor", "ttensor", "ttensor_sp")
 
 
 # ---------------------------------------------------------------- running pyttb with the solvers recorded
@@ -154,12 +176,17 @@ def _mk(ttb, np, a, rp):
         R = len(a["kw"])
         return ttb.ktensor([np.array(a["kf"][n], dtype=float).reshape((a["shape"][n], R)) for n in range(d)],
                            np.array(a["kw"], dtype=float), copy=True)
-    core = tgen.mk_tensor(ttb, np, a["tcs"], a["tcore"])
+    if rp == "ttensor_sp":       # sparse core, dense factors
+        subs, vals = tgen.dense_to_sparse(a["tcs"], a["tcore"], random.Random(a["sseed"]), a["order"])
+        core = tgen.mk_sptensor(ttb, np, a["tcs"], subs, vals)
+    else:
+        core = tgen.mk_tensor(ttb, np, a["tcs"], a["tcore"])
     return ttb.ttensor(core, [np.array(a["tf"][n], dtype=float).reshape((a["shape"][n], a["tcs"][n])) for n in range(d)], copy=True)
 
 
-def _run_one(ttb, np, a, rp):
-    X = _mk(ttb, np, a, rp)
+def _run_one(ttb, np, a, rp, X=None):
+    if X is None:
+        X = _mk(ttb, np, a, rp)
     log = []
     with _recorded(np, log):
         v = X.nvecs(a["n"], a["r"], flipsign=a["flip"])
@@ -194,9 +221,18 @@ def run_impl(c):
     import pyttb as ttb
     a = c.args
     try:
+        if c.op == "seq":
+            X = _mk(ttb, np, a, a["repr"])           # ONE object for the whole sequence
+            steps = []
+            for n, r in zip(a["modes"], a["rs"]):
+                an = dict(a, n=n, r=r)
+                st = _run_one(ttb, np, an, a["repr"], X)
+                st["cert"] = _cert(np, an)
+                steps.append(st)
+            return {"steps": steps}
         if c.op in ("agree", "sp_agree"):
             o = {"cert": _cert(np, a)}
-            for rp in (("dense", "ktensor", "ttensor") if c.op == "agree" else ("dense", "sparse")):
+            for rp in (AGREE_REPRS if c.op == "agree" else ("dense", "sparse")):
                 o[rp] = _run_one(ttb, np, a, rp)
             return o
         o = _run_one(ttb, np, a, a["repr"])
@@ -216,7 +252,7 @@ def _grepr(a, rp):
         return f"(RSparse {tgen.gsparse(a['shape'], subs, vals)})"
     if rp == "ktensor":
         return f"(RKruskal {tgen.gktensor(a['kw'], a['kf'])})"
-    return f"(RTucker {tgen.gttensor(a['tcs'], a['tcore'], a['tf'])})"
+    return f"(RTucker {tgen.gttensor(a['tcs'], a['tcore'], a['tf'])})"       # ttensor and ttensor_sp: same denotation
 
 
 def _all_int(m):
@@ -259,6 +295,13 @@ def coq_check(c, o):
     if c.op == "nvecs":
         rp = a["repr"]
         return f"{gbool(o['is_real'])} && {_e_gram(a, o, rp)} && {_e_eig(a, o, rp)} && {_e_post(a, o)}"
+    if c.op == "seq":
+        rp = a["repr"]
+        parts = []
+        for n, r, st in zip(a["modes"], a["rs"], o["steps"]):
+            an = dict(a, n=n, r=r)
+            parts.append(f"{gbool(st['is_real'])} && {_e_gram(an, st, rp)} && {_e_eig(an, st, rp)} && {_e_post(an, st)}")
+        return " && ".join(f"({p_})" for p_ in parts)
     if c.op == "sp_gram":
         return _e_gram(a, o, "sparse")
     if c.op == "sp_real":
@@ -271,7 +314,7 @@ def coq_check(c, o):
         return None
     if c.op == "agree":
         same = f"rsame {_grepr(a, 'dense')} {_grepr(a, 'ktensor')} && rsame {_grepr(a, 'dense')} {_grepr(a, 'ttensor')}"
-        return same + " && all_same_subspace eps6 [" + "; ".join(gqmat(o[rp]["V"]) for rp in ("dense", "ktensor", "ttensor")) + "]"
+        return same + " && all_same_subspace eps6 [" + "; ".join(gqmat(o[rp]["V"]) for rp in AGREE_REPRS) + "]"
     if c.op == "sp_agree":
         return (f"rsame {_grepr(a, 'dense')} {_grepr(a, 'sparse')} && {gbool(o['sparse']['is_real'])} && "
                 f"same_subspace eps6 {gqmat(o['dense']['V'])} {gqmat(o['sparse']['V'])}")
@@ -325,6 +368,12 @@ def oracle(c, o):
     a = c.args
     if "exc" in o:
         return f"admissible request raised {o['exc']}: {o.get('msg')}"
+    if c.op == "seq":
+        for k, (n, r, st) in enumerate(zip(a["modes"], a["rs"], o["steps"])):
+            w = _oracle_one(dict(a, n=n, r=r), st, f"{a['repr']} call {k + 1} of {len(o['steps'])} on the same object (mode {n}, r={r})")
+            if w:
+                return w
+        return None
     if c.op in ("agree", "sp_agree"):
         names = [k for k in o if k != "cert"]
         for nm in names:
